@@ -241,7 +241,7 @@ do_case(const struct rc_day *p, int c, struct dt_dt_s v, int u, int n, const str
 			cal_text(c, p, text, sizeof(text));
 			snprintf(dtxt, sizeof(dtxt), "%+d%s", n, unit_name[u]);
 			snprintf(cas, sizeof(cas), "%d %d %d %d", c, u, n, p->rd);
-			dadd_cmd(cmd, sizeof(cmd), c, text, dtxt, o == O_F ? "%F" : NULL);
+			const char *cmdp = dadd_cmd(cmd, sizeof(cmd), c, text, dtxt, o == O_F ? "%F" : NULL);
 			if (o == O_DAISY) {
 				snprintf(exp, sizeof(exp), "%ld", trd + 1);
 			} else if (o == O_INV) {
@@ -251,7 +251,7 @@ do_case(const struct rc_day *p, int c, struct dt_dt_s v, int u, int n, const str
 			} else {
 				snprintf(exp, sizeof(exp), "%04d-%02d-%02d", t->y, t->m, t->d);
 			}
-			ex_viol(key, (double)trd, cas, (o == O_DAISY || o == O_INV) ? NULL : cmd,
+			ex_viol(key, (double)trd, cas, (o == O_DAISY || o == O_INV) ? NULL : cmdp,
 				"%04d-%02d-%02d given as '%s' (%s) %s: %s observation is '%s', the day %ld steps on is %04d-%02d-%02d = '%s'",
 				p->y, p->m, p->d, text, cal_name[c], dtxt, obs_name[o], got[o], k, t->y, t->m, t->d, exp);
 		}
